@@ -26,7 +26,7 @@ ASSUMPTIONS = ["inputs are clean by construction and re-checked before use (harn
                "rewire() is unwound by logical budgets (thorough: proposals <= 3000*limit + 200000 and a stall window of 100000 proposals without an accepted swap; quick: 60000 proposals, stall window 15000; draws <= 50x the proposal budget); everything observed up to a stop is checked, the run is recorded as stopped",
                "a shape failure is attributed to the known finding K1 only if every shape-breaking swap carries the K1 signature"]
 HEADLINE = ["runs", "accepted_swaps", "proposals", "sig_K1", "sig_ideal", "sig_other", "shape_fail_K1", "shape_ok_swaps", "self_loop_corner_proposals",
-            "default_limit_runs", "reused_object_runs", "list_annotation_runs", "runs_with_isolated_vertices", "adopted_working_graphs", "stopped_runs", "drawset_invariant_evals", "input_events", "created_edges"]
+            "default_limit_runs", "reused_object_runs", "list_annotation_runs", "rewire_again_after_in_place_edit_of_the_network", "runs_with_isolated_vertices", "adopted_working_graphs", "stopped_runs", "drawset_invariant_evals", "input_events", "created_edges"]
 REQUIRED = {"quick": {"accepted_swaps": 2000, "self_loop_corner_proposals": 20, "default_limit_runs": 5, "hooks_installed": 100, "two_name_runs": 3, "runs_with_isolated_vertices": 10},
             "thorough": {"accepted_swaps": 100000, "self_loop_corner_proposals": 500, "default_limit_runs": 100, "hooks_installed": 1000, "two_name_runs": 50, "runs_with_isolated_vertices": 100}}
 SHARD_TIMEOUT = {"quick": 900, "thorough": 14400}
@@ -134,7 +134,7 @@ def make_network(rng, fam, N, ids="shuffled", assort=0.0, graph_cls=MonitoredGra
     return G, info, classes
 
 
-def run_rewire(res, G, names, T, params_extra, seed, budget_scale=1.0, ctx=None, cap=None, stall=None, reuse=None, retarget=None):
+def run_rewire(res, G, names, T, params_extra, seed, budget_scale=1.0, ctx=None, cap=None, stall=None, reuse=None, retarget=None, force_zero_draws=0.0):
     import gcmpy
     from gcmpy import ToolsNames as TN
     net = gcmpy.Network()
@@ -154,6 +154,9 @@ def run_rewire(res, G, names, T, params_extra, seed, budget_scale=1.0, ctx=None,
     if stall:
         mon.stall_window = stall
     tap = RandomTap(seed=seed, keep_log=False)
+    mon.tap = tap
+    mon.force_zero_draw_rate = force_zero_draws
+    mon.coin.seed(seed)
     H = None
     returned = False
     with installed_monitor(mon) as im, installed(tap, "mcmc", "drawset"):
@@ -170,6 +173,8 @@ def run_rewire(res, G, names, T, params_extra, seed, budget_scale=1.0, ctx=None,
                     m.ejks.ejks = {n: T[n] for n in order}
                 elif retarget == "ejks-setter":
                     m.ejks = tm
+                elif retarget == "nothing":
+                    pass            # the network object was edited in place by its owner: nothing is re-configured
                 else:
                     m.network = net
                     m.ejks = tm
@@ -189,6 +194,7 @@ def run_rewire(res, G, names, T, params_extra, seed, budget_scale=1.0, ctx=None,
     mon.obj = m
     mon.H = H
     mon.rng_calls = dict(tap.counts)
+    mon.reach["forced_zero_draws_consumed"] += tap.other.get("forced_random", 0)
     return mon
 
 
@@ -261,6 +267,37 @@ def run_case(case):
     quick = not case.get("thorough")
     mon = run_rewire(res, G, names, T, extra, seed=case["seed"], ctx=base, cap=60000 if quick else None, stall=15000 if quick else 100000)
     fold_monitor(res, mon, base)
+    if res.verdict == "held" and mon.returned and rng.random() < 0.3:
+        # history: the owner edits the network's graph IN PLACE (degree-preserving swaps between two 2-clique motifs: same graph
+        # object, same number of edges, still a clean motif network) and calls rewire() again on the same rewiring object
+        from gcmpy import NetworkNames as NN
+        two = [(u, v) for u, v, d in G.edges(data=True) if d[NN.TOPOLOGY] == "2-clique"]
+        swapped = 0
+        q = G._quiet
+        G._quiet = True
+        try:
+            for _ in range(40):
+                if len(two) < 2 or swapped >= 3:
+                    break
+                (a, b), (c, d) = rng.sample(two, 2)
+                if len({a, b, c, d}) < 4 or G.has_edge(a, d) or G.has_edge(c, b) or not (G.has_edge(a, b) and G.has_edge(c, d)):
+                    continue
+                d1, d2 = dict(G.edges[a, b]), dict(G.edges[c, d])
+                G.remove_edge(a, b); G.remove_edge(c, d)
+                G.add_edge(a, d); G.edges[a, d].update(d1)
+                G.add_edge(c, b); G.edges[c, b].update(d2)
+                two = [e for e in two if e not in ((a, b), (c, d))] + [(a, d), (c, b)]
+                swapped += 1
+        finally:
+            G._quiet = q
+            del G.events[:]
+        if swapped and not check_clean(G):
+            res.count("rewire_again_after_in_place_edit_of_the_network")
+            base1 = dict(base, history=["rewire()", "%d in-place 2-clique swaps on the network's own graph" % swapped, "rewire()"])
+            mon1 = run_rewire(res, G, names, T, extra, seed=case["seed"] + 3, ctx=base1, cap=60000 if quick else None, stall=15000 if quick else 100000,
+                              reuse=mon.obj, retarget="nothing")
+            fold_monitor(res, mon1, base1)
+            mon.accepted += mon1.accepted
     if res.verdict == "held" and rng.random() < 0.3:
         # history: the same rewiring object is pointed at another network / target and run again
         fam2 = rng.choice(list(FAMILIES))
